@@ -23,7 +23,8 @@ MANIFEST = {
              "rejected by every binary op and by Span construction, year/segment round trips, ordinal<->(y,m,d) bijection on valid dates, "
              "consecutive regular periods tile the day line (start(s+1)=end(s)+1, start<=middle<=end), shift keywords land on the documented "
              "period, a span enumerates exactly start+i*step up to end, len/iter/index agree, reversal is an involution, shifting maps elements, "
-             "resolve replaces exactly the contextual ends. The model is tied to the code on every run: closed-form fragments and day tables are "
+             "resolve replaces exactly the contextual ends, the operators p>>q / p<<q (None or a contextual end on either side) build the "
+             "forward span p..q / the backward span q..p. The model is tied to the code on every run: closed-form fragments and day tables are "
              "regenerated from dates.py by the translator (a changed formula re-checks the proofs), everything else by exact line-by-line "
              "correspondence with irispie (quick: every day 1890-2110 + boundary years, every regular period of those years; thorough: every "
              "day and period of years 1-9999), plus an independent datetime/range oracle on the implementation that supplies the replay."),
